@@ -17,6 +17,12 @@ class BitBuffer:
         self._buffer = 0
         self._remaining = 0
 
+    def _little_endian(self) -> bool:
+        # The native byte orders "@" and "=" denote little endian on a little endian machine, for the bits as for the bytes
+        from dissect.cstruct.utils import ENDIANNESS_MAP  # circular import
+
+        return ENDIANNESS_MAP[self.endian] == "little"
+
     def read(self, field_type: type[BaseType], bits: int) -> int:
         if self._remaining == 0 or self._type != field_type:
             if field_type.size is None:
@@ -27,7 +33,7 @@ class BitBuffer:
             self._buffer = field_type._read(self.stream)
 
         if isinstance(self._buffer, bytes):
-            if self.endian == "<":
+            if self._little_endian():
                 self._buffer = int.from_bytes(self._buffer, "little")
             else:
                 self._buffer = int.from_bytes(self._buffer, "big")
@@ -35,7 +41,7 @@ class BitBuffer:
         if bits > self._remaining:
             raise ValueError("Reading straddled bits is unsupported")
 
-        if self.endian == "<":
+        if self._little_endian():
             v = self._buffer & ((1 << bits) - 1)
             self._buffer >>= bits
             self._remaining -= bits
@@ -64,7 +70,7 @@ class BitBuffer:
             # Silently dropping the high bits would also corrupt the neighbouring fields of the unit
             raise OverflowError(f"Value {data!r} does not fit in a bit field of {bits} bits")
 
-        if self.endian == "<":
+        if self._little_endian():
             self._buffer |= data << (self._type.size * 8 - self._remaining)
         else:
             self._buffer |= data << (self._remaining - bits)
